@@ -13,8 +13,12 @@ SeqToSet(s) == {s[i] : i \in 1..Len(s)}
 \* the value written for own key k at level i carries <<k, i>>; an own key listed in chain[i].nul holds None: <<k, 0>>
 Own(chain, i) == [k \in SeqToSet(chain[i].own) |-> <<k, IF k \in SeqToSet(chain[i].nul) THEN 0 ELSE i>>]
 Overlay(parent, own) == [k \in DOMAIN parent \cup DOMAIN own |-> IF k \in DOMAIN own THEN own[k] ELSE parent[k]]
+\* the level a level merges onto: chain[i].par if given (0: none) -- several levels may share one parent --, else i - 1
+Par(chain, i) == IF "par" \in DOMAIN chain[i] THEN chain[i].par ELSE i - 1
 RECURSIVE Stored(_, _)
-Stored(chain, i) == IF i = 1 THEN Own(chain, 1) ELSE Overlay(Stored(chain, i - 1), Own(chain, i))
+Stored(chain, i) == IF Par(chain, i) = 0 THEN Own(chain, i) ELSE Overlay(Stored(chain, Par(chain, i)), Own(chain, i))
+RECURSIVE Ancestors(_, _)
+Ancestors(chain, i) == IF i = 0 THEN {} ELSE {i} \cup Ancestors(chain, Par(chain, i))
 SortedKeys(S) == LET RECURSIVE F(_)
                      F(T) == IF T = {} THEN <<>> ELSE LET x == CHOOSE y \in T : \A z \in T : y <= z IN <<x>> \o F(T \ {x})
                  IN F(S)
@@ -23,7 +27,7 @@ OInit(cfg) == [chain |-> cfg.chain, done |-> {}]     \* done: levels memoized so
 
 \* levels whose body must run for a call of level i: i and everything beneath that is not memoized yet
 Needed(st, i) == LET RECURSIVE N(_)
-                     N(j) == IF j = 0 \/ j \in st.done THEN <<>> ELSE <<j>> \o N(j - 1)
+                     N(j) == IF j = 0 \/ j \in st.done THEN <<>> ELSE <<j>> \o N(Par(st.chain, j))
                  IN N(i)
 
 Clauses(st, e) ==
@@ -38,5 +42,5 @@ Clauses(st, e) ==
 
 OOk(st, e)  == \A i \in 1..Len(Clauses(st, e)) : Clauses(st, e)[i][2]
 OWhy(st, e) == {Clauses(st, e)[i][1] : i \in {j \in 1..Len(Clauses(st, e)) : ~Clauses(st, e)[j][2]}}
-OStep(st, e) == [st EXCEPT !.done = @ \cup (1..e.level)]
+OStep(st, e) == [st EXCEPT !.done = @ \cup Ancestors(st.chain, e.level)]
 =============================================================================
